@@ -421,3 +421,54 @@ func runC14Real(w *core.WorkerCtx, k int) *core.CaseResult {
 	}
 	return res
 }
+
+// ---------------------------------------------------------------------------
+// C12: a scrape_timeout that is not a whole number of seconds, and a target that answers within it
+
+const c12FracCases = 4
+
+// runC12Frac: the job's scrape_timeout is 1.9 s (or 2.5 s) and the target answers completely after 1.3 s (2.2 s).
+// A delivery that breaks off BEFORE the configured timeout has passed is a violation (the proxy gave up early);
+// one that breaks off later is the timeout doing its work on a loaded machine and decides nothing (three tries).
+func runC12Frac(w *core.WorkerCtx, k int) *core.CaseResult {
+	timeout, delay, floor := "1s900ms", 1300, 1700*time.Millisecond
+	if k%2 == 1 {
+		timeout, delay, floor = "2s500ms", 2200, 2400*time.Millisecond
+	}
+	gz := k/2%2 == 1
+	res := &core.CaseResult{Sig: fmt.Sprintf("fractional-timeout/%s/gzip%v", timeout, gz), Execs: 1}
+	r := core.NewRng(w.Seed, 0xC12F, uint64(k))
+	body := Render(GenSamples(r, 1500+r.Intn(1500)), false)
+	for try := 0; try < 3; try++ {
+		dir := filepath.Join(w.Scratch, fmt.Sprintf("c12frac-%d-%d", k, try))
+		rg, err := newRig(dir, timeout, "")
+		if err != nil {
+			res.Inconcl = "rig: " + err.Error()
+			return res
+		}
+		const h = uint64(9)
+		if err := rg.assign("j1", h); err != nil {
+			rg.close()
+			res.Inconcl = "assign: " + err.Error()
+			return res
+		}
+		rg.mt.set(fmt.Sprintf("t%d.example:9100", h), &bodyScript{Body: body, Gzip: gz, DelayMs: delay})
+		t0 := time.Now()
+		o := rg.scrapeDirect("j1", h, 0)
+		elapsed := time.Since(t0)
+		rg.close()
+		os.RemoveAll(dir)
+		if o.Status == 200 && !o.Aborted && bytes.Equal(o.Body, body) {
+			res.Nontrivial = true
+			res.AddStat("scrapes_under_a_fractional_timeout_delivered", 1)
+			return res
+		}
+		if elapsed < floor {
+			res.Nontrivial = true
+			res.Violate("C12/fractional-timeout/gave-up-early", "scrape_timeout %s, the target answers completely after %d ms: the proxy ended the scrape after %v (status %d, aborted %v, %d of %d bytes) - before the configured timeout had passed", timeout, delay, elapsed.Round(time.Millisecond), o.Status, o.Aborted, len(o.Body), len(body))
+			return res
+		}
+		res.AddStat("scrapes_under_a_fractional_timeout_that_really_timed_out_on_a_loaded_machine", 1)
+	}
+	return res // three real timeouts: the machine is too loaded for this case to say anything
+}
